@@ -109,6 +109,7 @@ THEOREMS = [
     "OllamaVerif.C13.pathJoin_anyroot",
     "OllamaVerif.C13.manifest_path_confined_anyroot",
     "OllamaVerif.C13.blob_path_confined_anyroot",
+    "OllamaVerif.C13.blob_path_empty_anyroot",
     "OllamaVerif.C13.getBlobsPath_empty",
     "OllamaVerif.C13.blobs_mkdir_confined",
     "OllamaVerif.C13.runesRoundTrip_ascii",
